@@ -586,6 +586,16 @@ def rule_d4a(toks, log):
     """`assert!(E);` / `assert!(E, "msg" ..);` (a statement) ==> `let __assertK : bool = E ; assert(__assertK) ;`.
     E is still *executed* (calls keep their contracts and preconditions); the proof obligation says the
     assertion can never fire, i.e. the function does not panic here under its `requires`."""
+    # Directive `#[assert_guard]` (annotation tokens): the run-time assertions of this function are DOCUMENTED / POSSIBLE
+    # panics, not proof obligations: `assert!(E);` ==> `if ! ( E ) { __assert_failed ( ) ; }` where the unit declares
+    # `fn __assert_failed() -> !` (external_body, no `requires`): a call never returns, so E may be used afterwards -- exactly
+    # what the real `assert!` guarantees in debug and release builds.  The contract then speaks about normal returns only.
+    guard = False
+    for q in range(len(toks) - 3):
+        if toks[q][2] and _is(toks[q], '#') and _is(toks[q + 1], '[') and _is(toks[q + 2], 'assert_guard') and _is(toks[q + 3], ']'):
+            toks = toks[:q] + toks[q + 4:]
+            guard = True
+            break
     out = []
     i = 0
     n = 0
@@ -602,6 +612,11 @@ def rule_d4a(toks, log):
             cond = args[0]
             if not cond or any(x[2] for x in cond):
                 raise Unsupported('D4a: assert! condition shape')
+            if guard:
+                log.append('D4a `assert!(%s)` -> run-time guard (possible panic; `#[assert_guard]`)' % _txt(cond)[:100])
+                out += toks_of('if ! (', False) + cond + toks_of(') { __assert_failed ( ) ; }', False)
+                i = e + 2
+                continue
             v = '__assert%d' % n
             n += 1
             log.append('D4a `assert!(%s)` -> evaluated, then proof obligation (panic unreachable)' % _txt(cond)[:100])
@@ -678,6 +693,82 @@ def rule_d10(toks, log):
 
 
 # ---------------------------------------------------------------------------------------
+# D10b: an integer estimate computed in float arithmetic ==> opaque estimate function
+
+def rule_d10b(toks, log):
+    """Directive `#[float_est(X)]` (annotation tokens): the real statement `let [mut] X = ( E ) as T ;` -- E consisting only of
+    identifiers, float literals, `+ - * /`, parentheses and `as f32` / `as f64` casts, T one of the primitive integer types
+    -- becomes `let [mut] X = __f32_estK ( ids.. ) ;` (ids = the distinct identifiers of E in order of first occurrence,
+    K counts the estimates of the function).  Same reason as D10: Verus has no usable model of float arithmetic (`/` on
+    f32 carries an unprovable precondition).  The unit declares `__f32_estK` (returning T); whatever contract it gives it
+    is a TRUSTED statement about that float expression -- with NO `ensures` the proof holds for an arbitrary estimate.
+    A directive whose statement is missing or has another shape raises Unsupported."""
+    n = 0
+    while True:
+        i = 0
+        while i + 3 < len(toks):
+            if toks[i][2] and _is(toks[i], '#') and _is(toks[i + 1], '[') and _is(toks[i + 2], 'float_est') and _is(toks[i + 3], '('):
+                break
+            i += 1
+        else:
+            return toks
+        ce = _match_close(toks, i + 3)
+        if not (ce == i + 5 and toks[i + 4][0] == 'id' and ce + 1 < len(toks) and _is(toks[ce + 1], ']')):
+            raise Unsupported('D10b: malformed float_est directive')
+        name = toks[i + 4][1]
+        out = toks[:i] + toks[ce + 2:]
+        hit = None
+        k = 0
+        while k + 3 < len(out):
+            if _is(out[k], 'let') and not out[k][2]:
+                q = k + 1
+                if _is(out[q], 'mut'):
+                    q += 1
+                if out[q][0] == 'id' and out[q][1] == name and not out[q][2] and _is(out[q + 1], '='):
+                    e = q + 2
+                    d = 0
+                    while e < len(out) and not (d == 0 and _is(out[e], ';')):
+                        if out[e][0] == 'p' and out[e][1] in rtok.OPEN:
+                            d += 1
+                        elif out[e][0] == 'p' and out[e][1] in rtok.CLOSE:
+                            d -= 1
+                        e += 1
+                    hit = (q + 2, e)
+                    break
+            k += 1
+        if hit is None:
+            raise Unsupported('D10b: no `let %s = ..;` in the function' % name)
+        a, e = hit
+        init = out[a:e]
+        ints = ('u8', 'u16', 'u32', 'u64', 'u128', 'usize', 'i8', 'i16', 'i32', 'i64', 'i128', 'isize')
+        if any(x[2] for x in init) or len(init) < 5 or not _is(init[0], '(') or _match_close(out, a) != e - 3 \
+                or not _is(init[-2], 'as') or init[-1][1] not in ints:
+            raise Unsupported('D10b: estimate shape `%s`' % _txt(init))
+        inner = init[1:-3]
+        ids = []
+        k = 0
+        while k < len(inner):
+            x = inner[k]
+            if _is(x, 'as'):
+                if not (k + 1 < len(inner) and inner[k + 1][1] in ('f32', 'f64')):
+                    raise Unsupported('D10b: cast in float estimate: ' + _txt(inner))
+                k += 2
+                continue
+            if x[0] == 'id':
+                if x[1] not in ids:
+                    ids.append(x[1])
+            elif _is_float_lit(x) or (x[0] == 'p' and x[1] in ('+', '-', '*', '/', '(', ')')):
+                pass
+            else:
+                raise Unsupported('D10b: float estimate shape: ' + _txt(inner))
+            k += 1
+        g = '__f32_est%d' % n
+        n += 1
+        log.append('D10b float estimate `%s` -> opaque %s(%s)' % (_txt(init), g, ', '.join(ids)))
+        toks = out[:a] + toks_of('%s ( %s )' % (g, ' , '.join(ids)), False) + out[e:]
+
+
+# ---------------------------------------------------------------------------------------
 # D11: arithmetic operator between two parenthesised references ==> the trait method it stands for
 
 _D11_OPS = {'/': 'Div :: div', '%': 'Rem :: rem', '+': 'Add :: add', '-': 'Sub :: sub', '*': 'Mul :: mul'}
@@ -741,7 +832,7 @@ def rule_d11b(toks, log):
     while i < len(out):
         t = out[i]
         if _is(t, '&') and not t[2] \
-                and (i == 0 or out[i - 1][2] or (out[i - 1][0] == 'p' and out[i - 1][1] in ('=', '(', '{', '}', ';', ','))
+                and (i == 0 or out[i - 1][2] or (out[i - 1][0] == 'p' and out[i - 1][1] in ('=', '(', '{', '}', ';', ',', '+=', '-='))
                      or _d11b_field_init(out, i)):
             e1 = _place_path_end(out, i + 1)
             if e1 is not None and e1 + 1 < len(out) and out[e1][0] == 'p' and out[e1][1] in _D11_OPS and not out[e1][2] \
@@ -1069,6 +1160,63 @@ def rule_d14(toks, log):
 
 
 # ---------------------------------------------------------------------------------------
+# D14b: `( self << E )` / `( self >> E )` in a method whose receiver is `&self`
+
+def rule_d14b(toks, log):
+    """`( self << E )` / `( self >> E )` (the parenthesised expression consists of exactly this: real tokens only, E without a
+    top-level binary operator, as in D14) inside a method with receiver `&self` (after D2: first parameter `self_ : &T`)
+    ==> `( core::ops::Shl::shl ( self , E ) )` resp. `Shr::shr`.  Same reason as D14: this Verus build fails with an internal
+    error (`codegen_select_candidate failed`) on an overloaded operator whose left operand is a reference; the rewrite
+    is Rust's own definition of the operator.  Any other receiver shape leaves the tokens untouched."""
+    out = list(toks)
+    # the receiver must be a shared reference: `& self` or (hoisted) `self_ : &` not followed by `mut`
+    recv_ref = False
+    for k in range(len(out) - 2):
+        if out[k][2]:
+            continue
+        if _is(out[k], '&') and _is(out[k + 1], 'self') and not out[k + 1][2]:
+            recv_ref = True
+            break
+        if out[k][0] == 'id' and out[k][1] == 'self_' and _is(out[k + 1], ':') and _is(out[k + 2], '&') \
+                and not (k + 3 < len(out) and _is(out[k + 3], 'mut')):
+            recv_ref = True
+            break
+        if _is(out[k], '{'):
+            break
+    if not recv_ref:
+        return out
+    i = 0
+    while i + 3 < len(out):
+        if (out[i][0] == 'p' and out[i][1] == '(' and not out[i][2]
+                and out[i + 1][0] == 'id' and out[i + 1][1] in ('self', 'self_') and not out[i + 1][2]
+                and out[i + 2][0] == 'p' and out[i + 2][1] in _D14_OPS and not out[i + 2][2]):
+            e1 = _match_close(out, i)
+            rhs = out[i + 3:e1]
+            bad = not rhs or any(x[2] for x in rhs)
+            dd = 0
+            for k, x in enumerate(rhs):
+                if x[0] == 'p' and x[1] in rtok.OPEN:
+                    dd += 1
+                elif x[0] == 'p' and x[1] in rtok.CLOSE:
+                    dd -= 1
+                elif dd == 0 and x[0] == 'p' and x[1] in (
+                        '<', '>', '<=', '>=', '==', '!=', '&&', '||', '+', '*', '/', '%', '|', '^', '&', '<<', '>>', '..', '=',
+                        ',', ';') or (dd == 0 and k > 0 and x[0] == 'p' and x[1] == '-'):
+                    bad = True
+            if bad:
+                raise Unsupported('D14b: shift amount shape `%s`' % _txt(rhs))
+            op = out[i + 2][1]
+            log.append('D14b `%s` -> core::ops::%s(..)' % (_txt(out[i:e1 + 1])[:80], _D14_OPS[op].replace(' ', '')))
+            new = [out[i]] + toks_of('core :: ops :: %s (' % _D14_OPS[op], False) + [out[i + 1], T('p', ',')] + rhs \
+                + [T('p', ')'), out[e1]]
+            out = out[:i] + new + out[e1 + 1:]
+            i += len(new)
+            continue
+        i += 1
+    return out
+
+
+# ---------------------------------------------------------------------------------------
 # D15: `X.iter().all(|w| *w == C)` on a word slice
 
 def rule_d15(toks, log):
@@ -1218,6 +1366,104 @@ def rule_d17(toks, log):
 
 
 # ---------------------------------------------------------------------------------------
+# D18: `let PAT = loop { .. break EXPR; .. };` ==> deferred initialisation + plain `break`
+
+def rule_d18(toks, log):
+    """`let PAT = loop [annotation] { BODY } ;` where BODY leaves the loop through `break EXPR ;` statements ==>
+    `let __brkK ; loop [annotation] { BODY' } let PAT = __brkK ;` with every `break EXPR ;` of THIS loop (not inside a
+    nested loop / closure) replaced by `{ __brkK = EXPR ; break ; }`.  This is Rust's own definition of a loop with a
+    break value (the loop expression evaluates to the operand of the `break` that leaves it); this Verus build rejects
+    "complex break expressions" (rational/src/simplify.rs `Repr::simplest_in`).  A labelled break, a `break` without
+    operand next to one with operand, or a nested loop / closure containing `break` ==> unsupported."""
+    out = list(toks)
+    k = 0
+    i = 0
+    while i < len(out):
+        if _is(out[i], 'let') and not out[i][2]:
+            # find `= loop` at depth 0 before the next `;`
+            j = i + 1
+            d = 0
+            eq = None
+            while j < len(out):
+                tj = out[j]
+                if tj[0] == 'p' and tj[1] in rtok.OPEN:
+                    d += 1
+                elif tj[0] == 'p' and tj[1] in rtok.CLOSE:
+                    if d == 0:
+                        break
+                    d -= 1
+                elif d == 0 and tj[0] == 'p' and tj[1] == ';':
+                    break
+                elif d == 0 and _is(tj, '=') and not tj[2]:
+                    eq = j
+                    break
+                j += 1
+            if eq is not None and eq + 1 < len(out) and _is(out[eq + 1], 'loop') and not out[eq + 1][2]:
+                b = eq + 2
+                while b < len(out) and out[b][2]:      # loop annotation (invariant / decreases)
+                    b += 1
+                if not (b < len(out) and _is(out[b], '{') and not out[b][2]):
+                    raise Unsupported('D18: `let .. = loop` without a body block')
+                e = _match_close(out, b)
+                if not (e + 1 < len(out) and _is(out[e + 1], ';') and not out[e + 1][2]):
+                    raise Unsupported('D18: `let .. = loop { .. }` not followed by `;`')
+                body = out[b + 1:e]
+                if any(_is(x, w) and not x[2] for x in body for w in ('loop', 'while', 'for')) \
+                        or any(x[0] == 'p' and x[1] in ('|', '||') and not x[2] for x in body):
+                    raise Unsupported('D18: nested loop or closure inside a loop with break value')
+                name = '__brk%d' % k
+                nb = []
+                m = 0
+                hits = 0
+                while m < len(body):
+                    if _is(body[m], 'break') and not body[m][2]:
+                        n = m + 1
+                        dd = 0
+                        while n < len(body):
+                            tn = body[n]
+                            if tn[0] == 'p' and tn[1] in rtok.OPEN:
+                                dd += 1
+                            elif tn[0] == 'p' and tn[1] in rtok.CLOSE:
+                                dd -= 1
+                                if dd < 0:
+                                    raise Unsupported('D18: `break EXPR` not terminated by `;`')
+                            elif dd == 0 and tn[0] == 'p' and tn[1] == ';':
+                                break
+                            n += 1
+                        expr = body[m + 1:n]
+                        if not expr or any(x[2] for x in expr) or expr[0][0] == 'lifetime' or expr[0][1].startswith("'"):
+                            raise Unsupported('D18: `break` without operand / labelled break')
+                        nb += [T('p', '{'), T('id', name), T('p', '=')] + expr + [T('p', ';'), T('id', 'break'), T('p', ';'), T('p', '}')]
+                        hits += 1
+                        m = n + 1
+                        continue
+                    nb.append(body[m])
+                    m += 1
+                if hits == 0:
+                    raise Unsupported('D18: `let .. = loop` without `break EXPR;`')
+                pat = out[i + 1:eq]
+                # a typed declaration `let __brkK : TYPE ;` supplied by the annotation block right in front of the statement
+                # (needed when the loop's `ensures` mentions __brkK) replaces the untyped one
+                a0 = i
+                while a0 > 0 and out[a0 - 1][2]:
+                    a0 -= 1
+                pre = out[a0:i]
+                typed = any(_is(pre[x], 'let') and x + 2 < len(pre) and _is(pre[x + 1], name) and _is(pre[x + 2], ':')
+                            for x in range(len(pre)))
+                decl = [] if typed else [T('id', 'let'), T('id', name), T('p', ';')]
+                new = decl + [T('id', 'loop')] + out[eq + 2:b] + [T('p', '{')] + nb + [T('p', '}')] \
+                    + [T('id', 'let')] + pat + [T('p', '='), T('id', name), T('p', ';')]
+                log.append('D18 `let %s = loop { .. break EXPR; .. }` -> `let %s; loop { .. { %s = EXPR; break; } .. } let %s = %s;` (%d break(s))'
+                           % (_txt(pat)[:40], name, name, _txt(pat)[:40], name, hits))
+                out = out[:i] + new + out[e + 2:]
+                k += 1
+                i += len(new)
+                continue
+        i += 1
+    return out
+
+
+# ---------------------------------------------------------------------------------------
 
 def lower(toks, marks, opts=None):
     """toks: [(kind,text)], marks: [bool]; returns ([(kind,text)], log)."""
@@ -1230,14 +1476,17 @@ def lower(toks, marks, opts=None):
     ts = rule_d3(ts, log, drop=opts.get('drop_asserts', ()))
     ts = rule_d4a(ts, log)
     ts = rule_d10(ts, log)
+    ts = rule_d10b(ts, log)
     ts = rule_d11(ts, log)
     ts = rule_d11b(ts, log)
     ts = rule_d12(ts, log)
     ts = rule_d13(ts, log)
     ts = rule_d14(ts, log)
+    ts = rule_d14b(ts, log)
     ts = rule_d15(ts, log)
     ts = rule_d16(ts, log)
     ts = rule_d17(ts, log)
+    ts = rule_d18(ts, log)
     ts = rule_d7(ts, log)
     ts = rule_d1(ts, log)
     ts = rule_d9(ts, log)
